@@ -62,7 +62,7 @@ pub fn run(only: &[String]) -> Vec<String> {
             }
         }
     }
-    let texts = ["(app (var $x) ?y)[?a := (lam $z (var $z))]", "(lam $x (app (var $x) 7))", "(var $x (var $y))", "(app ?a ?b ?c)", "?x", "7"];
+    let texts = ["(app (var $x) ?y)[?a := (lam $z (var $z))]", "(lam $x (app (var $x) 7))", "(var $x (var $y))", "(app ?a ?b ?c)", "?x", "7", "?b[?x := (app ?a ?c ?d)]", "(lam $y ?t)[(var $x ?y) := ?z]"];
     for t in texts {
         for cut in 0..=t.len() {
             let s = &t[..cut];
